@@ -198,7 +198,7 @@ PROPS = {
         assumptions=['pandas >= 3 copy-on-write semantics (measured in this sandbox); calls '
                      'listed under assumed_read_only_calls do not write their arguments']),
     'C18': dict(
-        rules=[diff.diff_orient, diff.diff_sym, diff.diff_wrap_cols, diff.wrap_rules, diff.res_rules,
+        rules=[diff.diff_orient, diff.diff_sym, diff.diff_scale, diff.diff_wrap_cols, diff.wrap_rules, diff.res_rules,
                geo.unit_const,
                errmodel.es_perturb, geo.geo_perturb],
         decided=['difference is +first -second on every path, whichever input is denser',
